@@ -569,6 +569,131 @@ theorem run_wf (cap : Nat) (hcap : 24 < cap) (hc : cap ≤ 2 ^ 32) (ops : List (
       · exact handed_wf cap hc s op (hf op (by simp)) r hr
       · exact marker_wf x (hm x hx)
 
+/-- Generic form of `run_wf`: any predicate that holds of every record handed
+    over by the operations and of the flush markers holds of everything in
+    (file ++ buffer) after a run. -/
+theorem run_all_records (cap : Nat) (hcap : 24 < cap) (P : Rec D → Prop)
+    (hm : ∀ t, P (markerOpen t) ∧ P (markerClose t))
+    (ops : List (Op D)) (s s' : St D) (hg : Good cap s)
+    (hh : ∀ op ∈ ops, ∀ st : St D, ∀ r ∈ handed cap st op, P r)
+    (hw : ∀ x ∈ s.all, P x.1) (h : run cap s ops = some s') : ∀ x ∈ s'.all, P x.1 := by
+  induction ops generalizing s with
+  | nil => simp only [run, Option.some.injEq] at h; subst h; exact hw
+  | cons op ops ih =>
+    simp only [run] at h
+    cases hs : step cap s op with
+    | none => rw [hs] at h; cases h
+    | some s1 =>
+      rw [hs] at h
+      obtain ⟨⟨ms, ha, hmk⟩, hg1, _⟩ := step_fidelity cap hcap s s1 op hg hs
+      apply ih s1 hg1 (fun o ho => hh o (by simp [ho])) _ h
+      intro x hx
+      rw [ha] at hx
+      simp only [List.mem_append, List.mem_map] at hx
+      rcases hx with (hx | ⟨r, hr, rfl⟩) | hx
+      · exact hw x hx
+      · exact hh op (by simp) s r hr
+      · obtain ⟨_, t, ht | ht⟩ := hmk x hx
+        · rw [ht]; exact (hm t).1
+        · rw [ht]; exact (hm t).2
+
+theorem jumboRec_size (cap : Nat) (e : Ev) (he : Fresh e) (chs : List (List Nat)) (d : D) (r : Rec D)
+    (h : jumboRec cap e chs d = some r) : r.size < cap := by
+  unfold jumboRec at h
+  cases h1 : payloadAddAll e chs with
+  | none => rw [h1] at h; cases h
+  | some e1 =>
+    rw [h1] at h
+    simp only at h
+    obtain ⟨w1, _⟩ := payloadAddAll_spec e e1 chs (fresh_wf e he) h1
+    split at h
+    · cases h
+    · rename_i hz
+      have hz' : payloadSize e1.flags = 0 := by simpa using hz
+      cases h2 : payloadAdd e1 (le 4 (JData.len d)) with
+      | none => rw [h2] at h; cases h
+      | some e2 =>
+        rw [h2] at h
+        simp only at h
+        obtain ⟨w2, p2, _, _, _⟩ := payloadAdd_spec e1 e2 _ w1 h2
+        have hp1 : e1.payload.length = 0 := by rw [← w1.size, hz']
+        have hps : payloadSize e2.flags = 4 := by
+          rw [w2.size, p2, List.length_append, le_length, hp1]
+        split at h
+        · cases h
+        · rename_i hlt
+          cases h
+          show 16 + JData.len d < cap
+          rw [hps] at hlt; omega
+
+/-- Every record a program leaves in (file ++ buffer) is smaller than the
+    capacity (or than the largest normal event, 28 bytes). -/
+theorem run_sizes (cap : Nat) (hcap : 24 < cap) (ops : List (Op D)) (s' : St D)
+    (hf : ∀ op ∈ ops, FreshEv op) (h : run cap (init0 : St D) ops = some s') :
+    ∀ x ∈ s'.all, x.1.size < max cap 29 := by
+  apply run_all_records cap hcap (fun r => r.size < max cap 29) _ ops init0 s' (good_init0 cap (by omega)) _
+    (by intro x hx; cases hx) h
+  · intro t; constructor <;> (show 12 < max cap 29; omega)
+  · intro op ho st r hr
+    have hfr := hf op ho
+    have small : ∀ e : Ev, e.WF → (Rec.ev e : Rec D).size < max cap 29 := by
+      intro e hw
+      show 12 + payloadSize e.flags < max cap 29
+      have := hw.size; have := hw.len_le; omega
+    cases op with
+    | emit e ch =>
+      simp only [handed] at hr
+      cases hp : payloadAddAll e ch with
+      | none => rw [hp] at hr; cases hr
+      | some e' =>
+        rw [hp] at hr
+        simp only [List.mem_cons, List.mem_nil_iff, or_false] at hr
+        subst hr
+        exact small _ (payloadAddAll_spec e e' ch (fresh_wf e hfr) hp).1
+    | emitNow e ch =>
+      simp only [handed] at hr
+      cases hp : payloadAddAll { e with clock := st.now } ch with
+      | none => rw [hp] at hr; cases hr
+      | some e' =>
+        rw [hp] at hr
+        simp only [List.mem_cons, List.mem_nil_iff, or_false] at hr
+        subst hr
+        exact small _ (payloadAddAll_spec { e with clock := st.now } e' ch (fresh_wf _ ⟨hfr.1, hfr.2⟩) hp).1
+    | jumbo e ch d =>
+      simp only [handed] at hr
+      cases hp : jumboRec cap e ch d with
+      | none => rw [hp] at hr; cases hr
+      | some r' =>
+        rw [hp] at hr
+        simp only [List.mem_cons, List.mem_nil_iff, or_false] at hr
+        subst hr
+        have := jumboRec_size cap e hfr ch d _ hp
+        omega
+    | jumboNow e ch d =>
+      simp only [handed] at hr
+      cases hp : jumboRec cap { e with clock := st.now } ch d with
+      | none => rw [hp] at hr; cases hr
+      | some r' =>
+        rw [hp] at hr
+        simp only [List.mem_cons, List.mem_nil_iff, or_false] at hr
+        subst hr
+        have := jumboRec_size cap { e with clock := st.now } ⟨hfr.1, hfr.2⟩ ch d _ hp
+        omega
+    | mark k t v =>
+      simp only [handed] at hr
+      cases hp : payloadAddAll { m := 79, c := 77, v := k, clock := st.now } [sle 8 v, sle 4 t] with
+      | none => rw [hp] at hr; cases hr
+      | some e' =>
+        rw [hp] at hr
+        simp only [List.mem_cons, List.mem_nil_iff, or_false] at hr
+        subst hr
+        exact small _ (payloadAddAll_spec _ e' _ (fresh_wf _ ⟨rfl, rfl⟩) hp).1
+    | init => cases hr
+    | flush => cases hr
+    | setTick n => cases hr
+    | metaOp => cases hr
+    | free => cases hr
+
 /-- The memcpy of a record always stays inside the buffer: `evlen` is the exact
     number of buffered bytes and stays below the capacity in every reachable
     state (the `Good` invariant carried by `run_fidelity`). -/
